@@ -359,9 +359,9 @@ SMALLEST = [
 def run(ctx):
     names = list(PRED)
     with reach(ctx, [getattr(reset_fs, n) for n in names] + [design_mod.draw_room_grid, design_mod.draw_area]):
-        hmax = ctx.pick(9, 14)
+        hmax = ctx.pick(9, 16)
         shapes = [(h, w) for h in range(1, hmax + 1) for w in range(1, hmax + 1)]
-        seeds = ctx.pick(2, 6)
+        seeds = ctx.pick(2, 16)
         idx = 0
         for name in names:
             for p in param_grid(name, shapes, ctx.rng, ctx.thorough):
